@@ -10,6 +10,23 @@ package hc
 //@   requires t != nil && t.config != nil
 //@   modifies heap
 
+// ---- C10: event fan-out. For a change of c made by connection `except` (nil: by the application), every active connection
+// other than except whose session is subscribed to c gets exactly one Write, carrying the event message for c's current
+// value; every other connection object gets none.
+//@ pred eligible(ctx, k, c, except) = k != except && sessFor(ctx, k) != nil && subs(sessFor(ctx, k), c)
+//@ func (t *ipTransport) notifyListener(a, c, except)
+//@   requires t != nil && t.context != nil && a != nil && wellTyped(c)
+//@   modifies heap, sink, wcount, enccnt, held, stream
+//@   ensures each: forall(i, 0, activeN(t.context), wcount(activeAt(t.context, i)) == old(wcount(activeAt(t.context, i))) + ite(eligible(t.context, activeAt(t.context, i), c, except), 1, 0))
+//@   ensures others: forallv("x:ref", forall(i, 0, activeN(t.context), ref(activeAt(t.context, i)) != x) ==> wcount(x) == old(wcount(x)), wcount(x))
+//@   assert message before Conn.Write#1: seq(arg1) == seq(strrepl(tostr(httpmsg(nbody(a.ID, c.ID, c.Value))), "HTTP/1.0", "EVENT/1.0", 1))
+//@   loop 0
+//@     invariant idx: 0 <= loopidx && loopidx <= len(conns) && len(conns) == activeN(t.context) && forall(i, 0, len(conns), conns[i] == activeAt(t.context, i) && typeis(conns[i], "*github.com/brutella/hc/hap.Connection") && ref(conns[i]) > 0) && distinctActive(t.context)
+//@     invariant ctx: t.context == old(t.context) && wellTyped(c) && c.ID == old(c.ID) && c.Value == old(c.Value) && a.ID == old(a.ID)
+//@     invariant done: forall(i, 0, loopidx, wcount(activeAt(t.context, i)) == old(wcount(activeAt(t.context, i))) + ite(eligible(t.context, activeAt(t.context, i), c, except), 1, 0))
+//@     invariant todo: forall(i, loopidx, len(conns), wcount(activeAt(t.context, i)) == old(wcount(activeAt(t.context, i))))
+//@     invariant rest: forallv("x:ref", forall(i, 0, activeN(t.context), ref(activeAt(t.context, i)) != x) ==> wcount(x) == old(wcount(x)), wcount(x))
+
 // ---- C20: setup codes
 // ValidatePin accepts exactly the 8-digit decimal codes that are not one of the 12 trivial codes, and formats XXX-XX-XXX.
 //@ pred isDigits8(pin) = len(pin) == 8 && forall(i, 0, 8, '0' <= pin[i] && pin[i] <= '9')
